@@ -6,6 +6,7 @@ def main():
     sfam, cfam, nsess, n = sys.argv[1], sys.argv[2], int(sys.argv[3]), int(sys.argv[4])
     maxn = int(sys.argv[5]) if len(sys.argv) > 5 else 13
     ctx = Ctx("CXX", "quick", 1)
+    ctx.rx_conformance_spec = "Trace_Receiver"
     specs = recvlib.gen_sessions(ctx, sfam)
     specs = senderlib.sample(specs, nsess, 1)
     infos = recvlib.session_infos(ctx, specs, sfam)
@@ -27,5 +28,12 @@ def main():
             print("     sess:", json.dumps({"cfg": {k2: ex["session"]["cfg"][k2] for k2 in ex["session"]["cfg"] if k2 not in ("E", "B", "scheme", "queues")}, "objs": ex["session"]["objs"]})[:600])
         print("     beh:", json.dumps({k2: ex["behaviour"][k2] for k2 in ex["behaviour"] if k2 != "fam"})[:400])
     print(ctx.notes)
+    for lab, c in ctx.conformance.items():
+        print("CONFORMANCE", lab, {k: c[k] for k in ("matched", "unsupported", "drifted")}, c.get("unsupported_why"), c["errors"][:1])
+        for d in c["first_drifts"][:4]:
+            print("  DRIFT", json.dumps({k: d[k] for k in d if k not in ("behaviour", "session")})[:1500])
+            if d.get("behaviour"):
+                print("     beh:", json.dumps(d["behaviour"])[:400])
+                print("     sess:", json.dumps(d["session"])[:500])
     ctx.cleanup()
 main()
